@@ -306,4 +306,30 @@ Section LigeroFacts.
       transitivity (1 * fpow omega b); [ring|]. rewrite <- E'. ring. }
     destruct (Nat.lt_trichotomy i j) as [L|[L|L]]; [exfalso; exact (W i j L Hj E)|exact L|exfalso; exact (W j i L Hi (eq_sym E))].
   Qed.
+  (* the same for the well-formedness vector: it is r^T M or the queries miss the distance *)
+  Theorem ligero_wf_few_agreements n_rows n_cols n_ext omega rows z value pf r idx res wfv :
+    NoDup (dom omega n_ext) -> Forall (fun r => (length r <= n_cols)%nat) rows ->
+    Forall (fun i => (i < n_ext)%nat) idx ->
+    l_check true n_rows n_cols n_ext omega (map (encode omega n_ext) rows) z value pf r idx = Ok res ->
+    lf_wf pf = Some wfv ->
+    (exists x, eval wfv x <> eval (rowcomb rows n_cols r) x) ->
+    forall J, NoDup J -> incl J idx -> (length J < n_cols)%nat.
+  Proof.
+    intros Hd Hr Hi H Hw Hx J HJ Hinc. unfold l_check in H. rewrite Hw in H.
+    destruct (Nat.eqb_spec (length (lf_v pf)) n_cols) as [Lv|]; cbn [negb] in H; [|discriminate].
+    destruct (Nat.eqb_spec (length wfv) n_cols) as [Lw|]; cbn [negb bind] in H; [|discriminate].
+    destruct (path_loop _ (lf_cols pf) idx (lf_paths pf)) as [[]| |] eqn:Ep; cbn [bind] in H; try discriminate.
+    cbn [tensor_uni] in H. set (b := powers (fpow z n_cols) n_rows) in *.
+    match type of H with context [ip_loop ?V _ _] => destruct (ip_loop V (lf_cols pf) idx) as [[]| |] eqn:Ei end; cbn [bind] in H; try discriminate.
+    assert (Hin : In (r, encode omega n_ext wfv) [(r, encode omega n_ext wfv); (b, encode omega n_ext (lf_v pf))]) by (cbn; auto).
+    pose proof (loops_agree _ _ r _ Hin idx _ _ Ep Ei) as Ag.
+    apply (agreement_bound omega n_ext n_cols (rowcomb rows n_cols r) wfv J Hd).
+    - unfold rowcomb. rewrite map_length, seq_length. lia.
+    - lia.
+    - exact HJ.
+    - apply Forall_forall. intros j Hj. exact (proj1 (Forall_forall _ _) Hi j (Hinc j Hj)).
+    - intros q Hq. pose proof (Hinc q Hq) as Hq'. pose proof (proj1 (Forall_forall _ _) Hi q Hq') as Hlt.
+      rewrite <- !nth_encode by exact Hlt. rewrite <- (Ag q Hq'). apply column_check_complete; assumption.
+    - exact Hx.
+  Qed.
 End LigeroFacts.
